@@ -206,6 +206,38 @@ impl V {
         })
     }
 
+    /// like `lit`, plus constant-foldable constructor calls for timestamps and durations
+    pub fn src(&self) -> Option<String> {
+        match self {
+            V::Ts(ns) => {
+                let secs = ns.div_euclid(NS);
+                let nanos = ns.rem_euclid(NS);
+                let base = if secs < 0 { format!("timestamp(({}))", secs) } else { format!("timestamp({})", secs) };
+                Some(if nanos == 0 { base } else { format!("({} + duration(0, {}))", base, nanos) })
+            }
+            V::Dur(ns) => {
+                let secs = ns.div_euclid(NS);
+                let nanos = ns.rem_euclid(NS);
+                Some(if secs < 0 { format!("duration(({}), {})", secs, nanos) } else { format!("duration({}, {})", secs, nanos) })
+            }
+            V::List(l) => {
+                let mut parts = Vec::new();
+                for x in l {
+                    parts.push(x.src()?);
+                }
+                Some(format!("[{}]", parts.join(", ")))
+            }
+            V::Map(m) => {
+                let mut parts = Vec::new();
+                for (k, v) in m {
+                    parts.push(format!("{}: {}", str_lit(k), v.src()?));
+                }
+                Some(format!("{{{}}}", parts.join(", ")))
+            }
+            other => other.lit(),
+        }
+    }
+
     pub fn show(&self) -> String {
         match self {
             V::Dbl(d) => format!("Dbl({:?}/0x{:016x})", d, d.to_bits()),
